@@ -96,6 +96,8 @@ def run_history(env, hist, hid, evs, ctx):
     env.store = {}
     if env.usercfg_path.exists():
         env.usercfg_path.unlink()
+    import shutil
+    shutil.rmtree(env.root / "data" / "ofxtools" / "fiprofiles", ignore_errors=True)
     evs.append({"id": "%s" % hid, "op": "env", "servers": ["s1", "s2"]})
     for ri, h in enumerate(hist):
         r = h["run"]
@@ -135,7 +137,7 @@ def run_history(env, hist, hid, evs, ctx):
             evs.append(e)
         m = PW_RE.search(res["stdout"].encode())
         evs.append({"id": rid + "z", "op": "end", "ok": bool(res["ok"]), "exc": res["exc"][:80],
-                    "store": {s: env.store.get(s, "") for s in ("s1", "s2")}, "skip": persisted_skip(env), "printedpw": m.group(1).decode() if m else "",
+                    "store": {s: env.store.get(s, "") for s in ("s1", "s2")}, "skip": persisted_skip(env), "cached": cached_profiles(env), "cfg": cfg_sections(env), "printedpw": m.group(1).decode() if m else "",
                     "prompts": env.nprompts, "argv": " ".join(argv)})
         ctx.nontrivial.add((r["kind"], r["all"], r["dry"], bool(r["cli"]), r["save"], r["nokr"], r["kr"], r["skipprof"], bool(res["ok"])))
 
@@ -145,6 +147,26 @@ def persisted_skip(env):
     cp = configparser.ConfigParser(interpolation=None)
     cp.read_string(env.read_usercfg())
     return {s: cp.has_section(s) and cp[s].get("skipprofile", "false").lower() == "true" for s in ("s1", "s2")}
+
+
+def cfg_sections(env):
+    import configparser
+    cp = configparser.ConfigParser(interpolation=None)
+    cp.read_string(env.read_usercfg())
+    return {s: cp.has_section(s) for s in ("s1", "s2")}
+
+
+def cached_profiles(env):
+    """which servers have a file in the profile cache (the cache key ends in a digest of the URL)"""
+    import hashlib
+    d = env.root / "data" / "ofxtools" / "fiprofiles"
+    names = [p.name for p in d.iterdir()] if d.exists() else []
+    out = {}
+    for s in ("s1", "s2"):
+        h = hashlib.sha256(("https://%s.invalid/ofx" % s).encode()).hexdigest()[:16]
+        out[s] = any(h in n for n in names)
+    env.extra_cache_files = [n for n in names if not any(hashlib.sha256(("https://%s.invalid/ofx" % s).encode()).hexdigest()[:16] in n for s in ("s1", "s2"))]
+    return out
 
 
 def hist_from_tlc(h):
